@@ -29,6 +29,9 @@ REPO = os.environ.get("VERIF_REPO", "/repo")
 NCPU = int(os.environ.get("VERIF_NCPU", str(os.cpu_count() or 4)))
 
 
+SCRATCHES = []          # scratch directories of this process (removed by bin/check's watchdog too)
+
+
 class MachineryError(Exception):
     """The verification machinery itself failed (TLC crash, unparsable output, ...)."""
 
@@ -60,6 +63,7 @@ class Ctx:
         self._seen_keys = set()
         self.notes = []
         self.scratch = tempfile.mkdtemp(prefix="verif-%s-" % prop, dir=os.environ.get("VERIF_SCRATCH"))
+        SCRATCHES.append(self.scratch)
         self._known = [k for k in _known_findings() if k.get("property") == prop and k.get("status") == "open"]
 
     # ------------------------------------------------------------------ evidence
